@@ -93,7 +93,7 @@ class error_html(object):
         self.fd.write('<span class="info">&nbsp;&nbsp;%s</span><br />\n' %
                       (info_str))
 
-    def gen_seg(self, seg_data, src, err_node_list):
+    def gen_seg(self, seg_data, src, err_node_list, isa_errors=()):
         """
         Find error seg for this segment.
         Find any skipped error values.
@@ -106,7 +106,8 @@ class error_html(object):
         ele_pos_map = {}
         for err_node in err_node_list:
             for ele in err_node.elements:
-                ele_pos_map[ele.ele_pos] = ele.subele_pos
+                if ele.get_error_list(seg_data.get_seg_id()):
+                    ele_pos_map[ele.ele_pos] = ele.subele_pos
 
         t_seg = []  # list of formatted elements
         #seg_data.format_ele_list(t_seg)
@@ -151,15 +152,22 @@ class error_html(object):
             for ele in err_node.elements:
                 for (err_cde, err_str, err_val) in ele.get_error_list(seg_data.get_seg_id(), False):
                 #for (err_cde, err_str, err_val) in ele.errors:
-                    if not (seg_data.get_seg_id() == 'GE' and 'GS' in err_str):  # Ugly hack
-                        self.fd.write('<span class="error">&nbsp;%s (Element Error Code: %s)</span><br />\n' %
-                                      (escape_html_text(err_str), err_cde))
+                    self.fd.write('<span class="error">&nbsp;%s (Element Error Code: %s)</span><br />\n' %
+                                  (escape_html_text(err_str), err_cde))
+
+        for (err_cde, err_str) in isa_errors:
+            # interchange level errors raised by this segment
+            self.fd.write('<span class="error">&nbsp;%s (Interchange Error Code: %s)</span><br />\n' %
+                          (escape_html_text(err_str), err_cde))
 
     def _seg_str(self, seg_id, ele_list):
         """
         @param ele_list: list of formatted elements
         @rtype: string
         """
+        if not ele_list:
+            # a segment that is nothing but its identifier has no separator
+            return seg_id + self.seg_term + self.eol
         return seg_id + self.ele_term + seg_str(
             ele_list, self.seg_term, self.ele_term,
             self.subele_term, self.eol)
